@@ -156,8 +156,23 @@ func init() {
 				if withVariant {
 					nAlt++
 				}
+				// excursion=1: one more kind of step - the server's clock is set back by an hour for 30 seconds
+				// (whatever is due in that half minute, a clean-up for instance, sees the earlier time) and then
+				// corrected again; no handshake is presented while the clock is wrong
+				excursion := c.P("excursion", "0") == "1"
+				if excursion {
+					nAlt++
+				}
 				for d := 0; d < depth; d++ {
 					ch := vrt.Choose(nAlt, "step")
+					if excursion && ch == nAlt-1 {
+						hist += "clock-1h-for-30s "
+						var back time.Duration = time.Hour
+						r.sta.WorldState.Now = func() time.Time { return time.Now().Add(-back) }
+						time.Sleep(30 * time.Second)
+						r.sta.WorldState.Now = time.Now
+						continue
+					}
 					switch {
 					case ch == 0:
 						hist += "P1 "
@@ -398,6 +413,7 @@ func init() {
 			{Scenario: "replay.history", Params: vx.P("depth", fmt.Sprint(b(3, 4)), "cross", "1"), Bound: 0, Weight: 7},
 			{Scenario: "replay.history", Params: vx.P("depth", fmt.Sprint(b(4, 5)), "variant", "0", "lead", "170"), Bound: 0, Weight: 8},
 			{Scenario: "replay.history", Params: vx.P("depth", fmt.Sprint(b(3, 4)), "lead", "-170"), Bound: 0, Weight: 6},
+			{Scenario: "replay.history", Params: vx.P("depth", "3", "variant", "0", "excursion", "1"), Bound: 0, Weight: 4},
 			{Scenario: "replay.crosstransport", Weight: 2},
 			{Scenario: "replay.flood", Params: vx.P("n", fmt.Sprint(b(70000, 300000))), Weight: 6},
 			{Scenario: "replay.afterfault", Params: vx.P("browser", "firefox"), Bound: 1, Weight: 3},
